@@ -146,6 +146,19 @@ def _chunk(items):
                     continue
                 traces.append({'tid': tid, 'abbr': abbr, 'row': row['name'], 'flags': flags, 'indent_clause': bool(row['clause']),
                                'events': ev, 'output': out})
+                if tid % 7 == 0:
+                    # rendering does not change the tree: the same parsed tree printed under this row and then without formatting gives
+                    # exactly what two separate expansions give
+                    try:
+                        c1 = emmet.Config(_cfg(row))
+                        c2 = emmet.Config(_cfg(ROWS[1]))
+                        tree = emmet.markup_abbreviation(abbr, c1)
+                        r1 = emmet.stringify_markup(tree, c1)
+                        r2 = emmet.stringify_markup(tree, c2)
+                        if c1.syntax == c2.syntax and (r1 != out or r2 != emmet.expand(abbr, _cfg(ROWS[1]))):
+                            bad.append(('content differs', dict(case, detail='the same parsed tree printed twice', first=r1, second=r2, output=out)))
+                    except Exception as ex:
+                        bad.append(('expand raised', dict(case, exception=type(ex).__name__, form='tree printed twice')))
     return [('BAD', bad), ('TRACES', traces)]
 
 
